@@ -119,6 +119,7 @@ impl SubCheck for Gates {
 				frames: vec![body.clone()],
 				content_length: case.content_length,
 				uri: "/".into(),
+				trailers: false,
 			};
 			let log0 = fix.ctx.log_len();
 			let r = fix.http(mk(&cts)).await;
@@ -173,6 +174,13 @@ impl SubCheck for Gates {
 					if alone.iter().all(|a| a.status == 415) {
 						obs.check(log.is_empty(), "c19/handler-ran-for-non-json-content-type", desc);
 					}
+					// several Content-Type lines: the content type of the request is its first line (what `HeaderMap::get`
+					// reports); a later line that says JSON does not turn a text/plain request into a JSON one
+					if !ct_is_json(&cts[0]) {
+						obs.class("post-duplicate-content-type-first-not-json");
+						obs.check(r.status == 415, "c19/non-json-content-type-accepted", || format!("{} (first content-type line {:?})", desc(), String::from_utf8_lossy(&cts[0])));
+						obs.check(log.is_empty(), "c19/handler-ran-for-non-json-content-type", desc);
+					}
 				}
 			}
 			fix.ctx.gates.release_all();
@@ -218,7 +226,12 @@ fn blank_only(f: &[u8]) -> bool {
 }
 
 async fn compare_framings(fix: &Fixture, body: &[u8], frames: Vec<Vec<u8>>, content_length: bool, ct: &[u8], obs: &mut Obs, reference: &HttpResp) {
-	let req = HttpReq { method: "POST".into(), headers: vec![("content-type".into(), ct.to_vec())], frames: frames.clone(), content_length, uri: "/".into() };
+	// (a body without Content-Length may end in a trailers frame: every other framing of that kind does)
+	let trailers = !content_length && (frames.len() + body.len()) % 2 == 1;
+	if trailers {
+		obs.class("body-ends-with-trailers");
+	}
+	let req = HttpReq { method: "POST".into(), headers: vec![("content-type".into(), ct.to_vec())], frames: frames.clone(), content_length, uri: "/".into(), trailers };
 	let r = if fix.cfg.entry == 1 { fix.http_lowlevel(req).await } else { fix.http(req).await };
 	settle().await;
 	if r.status != reference.status || r.body != reference.body {
@@ -238,7 +251,7 @@ async fn compare_framings(fix: &Fixture, body: &[u8], frames: Vec<Vec<u8>>, cont
 		obs.fail(
 			sig,
 			format!(
-				"body {:?} frames {:?} content-length={content_length} => {} {:?}; one chunk => {} {:?}",
+				"body {:?} frames {:?} content-length={content_length} trailers={trailers} => {} {:?}; one chunk => {} {:?}",
 				String::from_utf8_lossy(body),
 				frames.iter().map(|f| String::from_utf8_lossy(f).to_string()).collect::<Vec<_>>(),
 				r.status,
